@@ -52,9 +52,6 @@ def oracle(ctx, r, stats):
         ctx.violation("exit-underflow", "ExitNoGc ran at depth 0 (InvalidBytecode: no_gc underflow) in compiled code", rep)
         return
     foreign = cls not in (0, 1, 2) or cls != e0[0] and cls != e1[0]
-    # which variant (leaf functions inlined or not) the implementation followed
-    cand = [e0] + ([e1] if r["opt"] >= 1 else [])
-    match = [e for e in cand if not foreign and [cls, d1, sp, sp_pos] == e[0:4]]
     if foreign:
         stats["foreign"] += 1
         stats.setdefault("foreign_kinds", {}).setdefault(r["detail"].split("\\n")[0][:60], 0)
@@ -63,42 +60,28 @@ def oracle(ctx, r, stats):
         # the count expectations do not apply; the restore half of the property still does
         if cls in (7,):
             return
-        if d1 > r["d0"]:
-            ctx.violation("depth-not-restored-after-error:leak-up:foreign-error",
+        if d1 != r["d0"]:
+            ctx.violation("depth-not-restored-after-error:foreign-error",
                           f"runtime error ({r['detail'][:80]}) left no_gc_depth at {d1}, was {r['d0']}", rep)
-        elif d1 < r["d0"]:
-            ctx.violation("depth-lowered-after-error", f"no_gc_depth went from {r['d0']} to {d1}", rep)
         return
-    # 2. depth restored
+    # 2. depth restored, whatever the outcome
     if d1 != r["d0"]:
         if cls == 0:
             ctx.violation("depth-unbalanced-on-ok-run", f"run ended ok with no_gc_depth {d1}, was {r['d0']}", rep)
-        elif d1 > r["d0"] and match and match[0][7] == d1 - r["d0"]:
-            ctx.violation("depth-not-restored-after-error:leak-up:open-regions=%d" % (d1 - r["d0"]),
-                          f"runtime error inside {d1 - r['d0']} open @no_gc region(s) left no_gc_depth at {d1}, was {r['d0']}", rep)
         else:
-            ctx.violation("depth-not-restored-after-error:unexplained", f"no_gc_depth {r['d0']} -> {d1} after an error", rep)
-    # 3. every safepoint inside a source-level region is reached with depth > 0 (meaningful when depth was 0 at the start)
+            ctx.violation("depth-not-restored-after-error", f"no_gc_depth {r['d0']} -> {d1} after a runtime error", rep)
+    # 3. every safepoint inside a source-level region is reached with depth > 0, the others at depth 0
+    #    (meaningful when the depth was 0 at the start)
     if r["d0"] == 0:
         flagged = e0[4]
         if sp != e0[2]:
             ctx.violation("safepoint-total-mismatch", f"{sp} safepoints observed, the source semantics has {e0[2]}", rep)
-        elif sp_pos != flagged:
-            if match:
-                m = match[-1] if (len(match) == 2 and match[0] is e0 and e0[0:4] == e1[0:4]) else match[0]
-                why = []
-                if m[5] > 0:
-                    why.append("return-expr")
-                if m[6] > 0:
-                    why.append("inlined-leaf")
-                if not why:
-                    why.append("unexplained")
-                for w in why:
-                    ctx.violation("region-safepoint-at-depth0:" + w,
-                                  f"{flagged - sp_pos} of {flagged} safepoints inside a @no_gc region were reached with no_gc_depth = 0 ({w})", rep)
-            else:
-                ctx.violation("region-safepoint-at-depth0:unexplained",
-                              f"{sp_pos} safepoints at depth>0, {flagged} inside a source-level region", rep)
+        elif sp_pos < flagged:
+            ctx.violation("region-safepoint-at-depth0",
+                          f"{flagged - sp_pos} of {flagged} safepoints inside a @no_gc region were reached with no_gc_depth = 0", rep)
+        elif sp_pos > flagged:
+            ctx.violation("safepoint-outside-region-at-positive-depth",
+                          f"{sp_pos} safepoints at depth>0 but only {flagged} inside a source-level region", rep)
     elif sp_pos != sp:
         ctx.violation("depth-positive-but-safepoint-at-0", "a safepoint was counted at depth 0 although the run started and stayed at depth > 0", rep)
 
@@ -159,7 +142,7 @@ def run(ctx):
             p = os.path.join(vlib.CACHE, "c13_replay.sx")
             open(p, "w").write(rp["skeleton"] + "\n")
             corpus, sessions = [p], 0
-    dist = {"clean": 0, "known-class": 0, "corpus": 0}
+    dist = {"generated": 0, "corpus": 0}
     for prof in profiles:
         ok, paths, log = vlib.harness_build(["hx_nogc"], profile=prof)
         if not ok:
@@ -186,7 +169,7 @@ def run(ctx):
         rows = [r for r in rows if "bad" not in r]
         total += len(rows)
         for r in rows:
-            dist["corpus" if r["sid"].startswith("corpus") else "known-class" if r["sid"].startswith("k") else "clean"] += 1
+            dist["corpus" if r["sid"].startswith("corpus") else "generated"] += 1
             if r["e0"][2] > r["e0"][2] - r["e0"][4] or r["e0"][0] != 0:
                 distinct.add((r["skel"], r["opt"], r["d0"]))
             oracle(ctx, r, stats)
@@ -202,9 +185,9 @@ def run(ctx):
         "text": "REPL sessions of 1-4 inputs on one VM after a fixed prelude; each input = 1-5 functions (each @no_gc with p=1/2; 1/4 nested "
                 "fn or lambda inside an earlier one; 1/6 two-parameter leaf `a + b` with or without `return`) + top-level statements; "
                 "bodies from {alloc/free, string +, guarded and unguarded calls incl. recursion, if/else, for, while, break, continue, "
-                "return e with e from atom/alloc/string +/call/division by zero/two-operand helper, division by zero}; every input at -O0..-O3; "
-                "75% of sessions are rejection-sampled outside the three known defect classes (return-expression safepoint in a region, "
-                "inlined @no_gc leaf, error inside an open region), 25% are unrestricted; runs ended early by a defect of another property "
+                "return e with e from atom/alloc/string +/call/division by zero, division by zero (also inside open regions)}; every input at "
+                "-O0..-O3; unrestricted (the three former defect classes -- safepoint in a return expression, inlined @no_gc leaf, error inside "
+                "an open region -- are repaired and part of the stream); runs ended early by a defect of another property "
                 "(undefined variable after nested functions, type confusion) are counted as foreign_failures and only checked for depth/collection",
     }
     ctx.cov["rule"] = ("per run: counters of the GC hook with a collection forced at every safepoint; collections at depth>0 = 0; "
